@@ -16,35 +16,488 @@ def SrtComplete (x : Ctx) : Prop := ∀ a y, y < x.c.p → y * y % x.c.p = a % x
     this needs R invertible mod p, for the pairing convention nothing) — stated as a property of the context -/
 def SignSeparates (x : Ctx) : Prop := ∀ y, 0 < y → y < x.c.p → signBit x y ≠ signBit x (x.c.p - y)
 
-/-- R3: whatever byte string is accepted denotes a point on the curve with canonical coordinates … -/
+/-- non-vacuity of `SignSeparates`: it holds for the pairing convention whenever p is odd -/
+theorem signSeparates_pairf (x : Ctx) (hpf : x.pairf = true) (hodd : x.c.p % 2 = 1) : SignSeparates x := by
+  intro y h0 hy
+  simp only [signBit, hpf, if_true]
+  split <;> split <;> omega
+
+/-! ### helpers: sign bit, field element reading, square roots modulo a prime -/
+
+theorem signBit_le_one (x : Ctx) (y : Nat) : signBit x y ≤ 1 := by
+  unfold signBit
+  split
+  · split <;> omega
+  · omega
+
+theorem fpRead_some {x : Ctx} {b : Bytes} {v : Nat} (h : fpRead x b = some v) :
+    b.length = x.nb ∧ v = beVal b ∧ v < x.c.p := by
+  unfold fpRead at h
+  split at h
+  · cases h
+  · split at h
+    · cases h; refine ⟨by omega, rfl, by assumption⟩
+    · cases h
+
+theorem fpRead_eq {x : Ctx} {b : Bytes} (hl : b.length = x.nb) (hv : beVal b < x.c.p) :
+    fpRead x b = some (beVal b) := by
+  simp [fpRead, hl, hv]
+
+/-- Euclid's lemma from the divisor definition of primality -/
+theorem prime_dvd_mul {p : Nat} (hprime : ∀ d, d ∣ p → d = 1 ∨ d = p) {a b : Nat} (h : p ∣ a * b) :
+    p ∣ a ∨ p ∣ b := by
+  rcases hprime (Nat.gcd p a) (Nat.gcd_dvd_left p a) with h1 | hp
+  · exact .inr (Nat.Coprime.dvd_of_dvd_mul_left h1 h)
+  · exact .inl (hp ▸ Nat.gcd_dvd_right p a)
+
+theorem sq_eq_aux {p : Nat} (hprime : ∀ d, d ∣ p → d = 1 ∨ d = p) {r y : Nat} (hry : r ≤ y)
+    (hy : y < p) (h : r * r % p = y * y % p) : r = y ∨ r + y = p := by
+  have h1 : (y * y - r * r) % p = 0 := Nat.sub_mod_eq_zero_of_mod_eq h.symm
+  rw [Nat.mul_self_sub_mul_self_eq] at h1
+  rcases prime_dvd_mul hprime (Nat.dvd_of_mod_eq_zero h1) with h2 | h2
+  · obtain ⟨k, hk⟩ := h2
+    rcases k with _ | _ | k
+    · omega
+    · omega
+    · rw [Nat.mul_add, Nat.mul_add] at hk; omega
+  · have := Nat.eq_zero_of_dvd_of_lt h2 (by omega)
+    omega
+
+theorem sq_eq {p : Nat} (hprime : ∀ d, d ∣ p → d = 1 ∨ d = p) {r y : Nat} (hr : r < p)
+    (hy : y < p) (h : r * r % p = y * y % p) : r = y ∨ r + y = p := by
+  rcases Nat.le_total r y with hry | hry
+  · exact sq_eq_aux hprime hry hy h
+  · rcases sq_eq_aux hprime hry hr h.symm with h1 | h1
+    · exact .inl h1.symm
+    · exact .inr (by omega)
+
+theorem upk_signBit {x : Ctx} (hs : SrtSound x) (hsep : SignSeparates x) {px bit py : Nat} (hbit : bit ≤ 1)
+    (h : upk x px bit = some py) (hpy : py ≠ 0) : signBit x py = bit := by
+  unfold upk at h
+  dsimp only at h
+  split at h
+  · cases h
+  · next r hr =>
+    have ⟨hrp, _⟩ := hs _ _ hr
+    split at h
+    · next hne =>
+      cases h
+      by_cases hr0 : r = 0
+      · subst hr0; simp at hpy
+      · rw [Nat.mod_eq_of_lt (by omega)]
+        have h1 := hsep r (by omega) hrp
+        have h2 := signBit_le_one x r
+        have h3 := signBit_le_one x (x.c.p - r)
+        omega
+    · next heq =>
+      cases h
+      simpa using heq
+
+theorem onCurve_some {c : Curve} {px py : Nat} (h : onCurve c (some (px, py)) = true) :
+    px < c.p ∧ py < c.p ∧ py * py % c.p = (px * px % c.p * px + c.a * px + c.b) % c.p := by
+  simpa [onCurve, and_assoc] using h
+
+theorem upk_complete {x : Ctx} (hprime : ∀ d, d ∣ x.c.p → d = 1 ∨ d = x.c.p) (hs : SrtSound x)
+    (hc : SrtComplete x) (hsep : SignSeparates x) {px py : Nat} (hon : onCurve x.c (some (px, py)) = true) :
+    upk x px (signBit x py) = some py := by
+  obtain ⟨hpx, hpy, heq⟩ := onCurve_some hon
+  unfold upk
+  dsimp only
+  have hsome := hc ((px * px % x.c.p * px + x.c.a * px + x.c.b) % x.c.p) py hpy (by rw [Nat.mod_mod]; exact heq)
+  split
+  · next hnone => rw [hnone] at hsome; cases hsome
+  · next r hr =>
+    obtain ⟨hrp, hrr⟩ := hs _ _ hr
+    rw [Nat.mod_mod, ← heq] at hrr
+    rcases sq_eq hprime hrp hpy hrr with h1 | h1
+    · subst h1; simp
+    · by_cases hry : r = py
+      · subst hry; simp
+      · have hr' : r = x.c.p - py := by omega
+        have h2 := hsep py (by omega) hpy
+        rw [← hr'] at h2
+        rw [if_pos (Ne.symm h2)]
+        congr 1
+        rw [Nat.mod_eq_of_lt (by omega)]; omega
+
+
+
+/-! ### helpers: big-endian byte strings -/
+
+theorem beBytes_length (n k : Nat) : (beBytes n k).length = k := by simp [beBytes]
+
+theorem beBytes_succ (n k : Nat) : beBytes n (k + 1) = beBytes (n / 256) k ++ [UInt8.ofNat (n % 256)] := by
+  simp [beBytes, List.range_succ_eq_map, Nat.pow_succ, Nat.div_div_eq_div_mul, Nat.mul_comm]
+
+theorem beVal_concat (b : Bytes) (a : UInt8) : beVal (b ++ [a]) = beVal b * 256 + a.toNat := by
+  simp [beVal]
+
+theorem beVal_beBytes (k : Nat) : ∀ n, n < 256 ^ k → beVal (beBytes n k) = n := by
+  induction k with
+  | zero => intro n h; simp at h; subst h; rfl
+  | succ k ih =>
+    intro n h
+    rw [beBytes_succ, beVal_concat, ih _ (by rw [Nat.pow_succ] at h; omega)]
+    rw [UInt8.toNat_ofNat']
+    omega
+
+theorem beBytes_beVal_rev (l : Bytes) : beBytes (beVal l.reverse) l.length = l.reverse := by
+  induction l with
+  | nil => rfl
+  | cons a l ih =>
+    rw [List.reverse_cons, beVal_concat, List.length_cons, beBytes_succ]
+    have h := a.toNat_lt
+    have h1 : (beVal l.reverse * 256 + a.toNat) / 256 = beVal l.reverse := by omega
+    have h2 : (beVal l.reverse * 256 + a.toNat) % 256 = a.toNat := by omega
+    rw [h1, h2, ih, UInt8.ofNat_toNat]
+
+theorem beBytes_beVal (b : Bytes) : beBytes (beVal b) b.length = b := by
+  have := beBytes_beVal_rev b.reverse
+  simpa using this
+
+
+/-! ### the statements -/
+
+/-- R2: the buffer check: an error exactly when the buffer is shorter than the advertised size -/
+theorem writeBin_error_iff (x : Ctx) (len : Nat) (P : Point) (pack : Bool) :
+    writeBin x len P pack = none ↔ len < sizeBin x P pack := by
+  unfold writeBin sizeBin
+  rcases P with _ | ⟨px, py⟩
+  · simp
+  · cases pack <;> simp
+
+/-- inversion of `readBin`: the three accepting paths with everything that was checked on them -/
+theorem readBin_cases (x : Ctx) (bin : Bytes) (P : Point) (h : readBin x bin = some P) :
+    (bin = [0] ∧ P = none) ∨
+    (bin.length ≠ 1 ∧ bin.length = x.nb + 1 ∧ ∃ px py, fpRead x (bin.drop 1) = some px ∧
+      ((bin.headD 0).toNat = 2 ∨ (bin.headD 0).toNat = 3) ∧
+      upk x px ((bin.headD 0).toNat - 2) = some py ∧ onCurve x.c (some (px, py)) = true ∧ P = some (px, py)) ∨
+    (bin.length ≠ 1 ∧ bin.length ≠ x.nb + 1 ∧ bin.length = 2 * x.nb + 1 ∧ bin.head? = some 4 ∧ ∃ px py,
+      fpRead x ((bin.drop 1).take x.nb) = some px ∧ fpRead x (bin.drop (1 + x.nb)) = some py ∧
+      onCurve x.c (some (px, py)) = true ∧ P = some (px, py)) := by
+  unfold readBin at h
+  split at h
+  · next hl =>
+    split at h
+    · next hh =>
+      cases h
+      left
+      match bin, hl, hh with
+      | [a], _, hh => simp at hh; simp [hh]
+    · cases h
+  · next hl1 =>
+    split at h
+    · next hl =>
+      right; left
+      split at h
+      · cases h
+      · next px hpx =>
+        dsimp only at h
+        split at h
+        · cases h
+        · next htag =>
+          split at h
+          · cases h
+          · next py hpy =>
+            split at h
+            · next hon =>
+              cases h
+              exact ⟨hl1, hl, px, py, hpx, by omega, hpy, hon, rfl⟩
+            · cases h
+    · next hl2 =>
+      split at h
+      · next hl =>
+        right; right
+        split at h
+        · cases h
+        · next hh =>
+          split at h
+          · next px py hpx hpy =>
+            split at h
+            · next hon =>
+              cases h; exact ⟨hl1, hl2, hl, by simpa using hh, px, py, hpx, hpy, hon, rfl⟩
+            · cases h
+          · cases h
+      · cases h
+
+set_option linter.unusedVariables false in
+/-- R3: whatever byte string is accepted denotes a point on the curve with canonical coordinates …
+    (`hp`, `hs` are not needed: every accepting path ends with the explicit `onCurve` check) -/
 theorem readBin_valid (x : Ctx) (hp : 1 < x.c.p) (hs : SrtSound x) (bin : Bytes) (P : Point) (h : readBin x bin = some P) :
     onCurve x.c P = true := by
-  sorry
+  rcases readBin_cases x bin P h with ⟨_, rfl⟩ | ⟨_, _, px, py, _, _, _, hon, rfl⟩ | ⟨_, _, _, _, px, py, _, _, hon, rfl⟩
+  · rfl
+  · exact hon
+  · exact hon
+
+theorem headD_toNat {bin : Bytes} {n : Nat} (hne : bin ≠ []) (h : (bin.headD 0).toNat = n) :
+    bin.head? = some (UInt8.ofNat n) := by
+  match bin, hne with
+  | a :: l, _ =>
+    simp only [List.headD_cons] at h
+    simp [← h]
 
 /-- … of one of the three advertised lengths with the matching tag -/
 theorem readBin_shape (x : Ctx) (bin : Bytes) (P : Point) (h : readBin x bin = some P) :
     (bin = [0] ∧ P = none) ∨
     (bin.length = x.nb + 1 ∧ (bin.head? = some 2 ∨ bin.head? = some 3) ∧ P ≠ none) ∨
     (bin.length = 2 * x.nb + 1 ∧ bin.head? = some 4 ∧ P ≠ none) := by
-  sorry
+  rcases readBin_cases x bin P h with ⟨h1, h2⟩ | ⟨_, hl, px, py, _, htag, _, hon, rfl⟩ | ⟨_, _, hl, hh, px, py, _, _, hon, rfl⟩
+  · exact .inl ⟨h1, h2⟩
+  · refine .inr (.inl ⟨hl, ?_, by simp⟩)
+    have hne : bin ≠ [] := by intro h0; simp [h0] at hl
+    rcases htag with h2 | h3
+    · exact .inl (headD_toNat hne h2)
+    · exact .inr (headD_toNat hne h3)
+  · exact .inr (.inr ⟨hl, hh, by simp⟩)
 
-/-- … and re-encoding it in the same format and length reproduces the input bytes (no malleability) -/
-theorem writeBin_readBin (x : Ctx) (hp : 1 < x.c.p) (hnb : x.c.p ≤ 256 ^ x.nb) (hs : SrtSound x) (hsep : SignSeparates x)
-    (bin : Bytes) (P : Point) (h : readBin x bin = some P) :
+
+theorem writeBin_none (x : Ctx) (pack : Bool) : writeBin x 1 none pack = some [0] := by
+  simp [writeBin]
+
+theorem writeBin_pack (x : Ctx) (px py : Nat) :
+    writeBin x (x.nb + 1) (some (px, py)) true = some (UInt8.ofNat (2 + signBit x py) :: beBytes px x.nb) := by
+  simp [writeBin]
+
+theorem writeBin_unpack (x : Ctx) (px py : Nat) :
+    writeBin x (2 * x.nb + 1) (some (px, py)) false = some (4 :: (beBytes px x.nb ++ beBytes py x.nb)) := by
+  simp [writeBin]
+
+theorem readBin_zero (x : Ctx) : readBin x [0] = some none := by
+  simp [readBin]
+
+theorem readBin_pack (x : Ctx) (bin : Bytes) (px py : Nat) (hl1 : bin.length ≠ 1) (hl : bin.length = x.nb + 1)
+    (hpx : fpRead x (bin.drop 1) = some px) (htag : (bin.headD 0).toNat = 2 ∨ (bin.headD 0).toNat = 3)
+    (hupk : upk x px ((bin.headD 0).toNat - 2) = some py) (hon : onCurve x.c (some (px, py)) = true) :
+    readBin x bin = some (some (px, py)) := by
+  have htag' : ¬ ((bin.headD 0).toNat ≠ 2 ∧ (bin.headD 0).toNat ≠ 3) := by omega
+  simp only [readBin, if_neg hl1, if_pos hl, hpx, if_neg htag', hupk, hon, if_true]
+
+theorem readBin_unpack (x : Ctx) (bin : Bytes) (px py : Nat) (hl1 : bin.length ≠ 1) (hl2 : bin.length ≠ x.nb + 1)
+    (hl : bin.length = 2 * x.nb + 1) (hh : bin.head? = some 4)
+    (hpx : fpRead x ((bin.drop 1).take x.nb) = some px) (hpy : fpRead x (bin.drop (1 + x.nb)) = some py)
+    (hon : onCurve x.c (some (px, py)) = true) :
+    readBin x bin = some (some (px, py)) := by
+  have hh' : ¬ (bin.head? ≠ some 4) := by simp [hh]
+  simp only [readBin, if_neg hl1, if_neg hl2, if_pos hl, if_neg hh', hpx, hpy, hon, if_true]
+
+theorem writeBin_readBin_aux (x : Ctx) (hs : SrtSound x) (hsep : SignSeparates x)
+    (bin : Bytes) (P : Point) (h : readBin x bin = some P)
+    (hy0 : bin.length = x.nb + 1 → ∀ px, P ≠ some (px, 0)) :
     writeBin x bin.length P (bin.length = x.nb + 1) = some bin := by
-  sorry
+  rcases readBin_cases x bin P h with ⟨rfl, rfl⟩ | ⟨hl1, hl, px, py, hpx, htag, hupk, hon, rfl⟩ |
+      ⟨hl1, hl2, hl, hh, px, py, hpx, hpy, hon, rfl⟩
+  · exact writeBin_none x _
+  · obtain ⟨hdl, hv, hlt⟩ := fpRead_some hpx
+    have hpy0 : py ≠ 0 := by
+      intro h0; subst h0; exact hy0 hl px rfl
+    have hbit := upk_signBit hs hsep (by omega) hupk hpy0
+    rw [decide_eq_true hl, hl, writeBin_pack]
+    match bin, hl with
+    | a :: rest, hl =>
+      simp only [List.drop_succ_cons, List.drop_zero, List.headD_cons] at hdl hv htag hbit
+      have ha : UInt8.ofNat (2 + signBit x py) = a := by
+        rw [hbit]
+        have : 2 + (a.toNat - 2) = a.toNat := by omega
+        rw [this, UInt8.ofNat_toNat]
+      have hb : beBytes px x.nb = rest := by rw [hv, ← hdl, beBytes_beVal]
+      rw [ha, hb]
+  · obtain ⟨hdl1, hv1, hlt1⟩ := fpRead_some hpx
+    obtain ⟨hdl2, hv2, hlt2⟩ := fpRead_some hpy
+    rw [decide_eq_false hl2, hl, writeBin_unpack]
+    match bin, hl with
+    | a :: rest, hl =>
+      have hd : List.drop (1 + x.nb) (a :: rest) = List.drop x.nb rest := by
+        rw [Nat.add_comm, List.drop_succ_cons]
+      rw [hd] at hdl2 hv2
+      simp only [List.drop_succ_cons, List.drop_zero, List.head?_cons, Option.some.injEq] at hdl1 hv1 hh
+      have hb1 : beBytes px x.nb = rest.take x.nb := by
+        have := beBytes_beVal (rest.take x.nb)
+        rwa [hdl1, ← hv1] at this
+      have hb2 : beBytes py x.nb = rest.drop x.nb := by
+        have := beBytes_beVal (rest.drop x.nb)
+        rwa [hdl2, ← hv2] at this
+      rw [hb1, hb2, List.take_append_drop, hh]
 
-/-- R1: decode (encode P) = P for every point on the curve, compressed and uncompressed, at the advertised size -/
+set_option linter.unusedVariables false in
+/-- … and re-encoding it in the same format and length reproduces the input bytes (no malleability) —
+    except for compressed encodings of points of order 2, see `readBin_twoTorsion_malleable` below.
+    (`hp`, `hnb` are not needed in this direction.) -/
+-- STATEMENT CHANGED: new hypothesis `hy0` (a compressed input must not decode to a point with y = 0).
+-- Without it the statement is FALSE, and this is a property of the C code, not of the model: ep_upk
+-- negates the root when its sign bit differs from the requested one, but -0 = 0, so for a point (x, 0)
+-- of order 2 both `02 ‖ x` and `03 ‖ x` are accepted and decode to the same point, while ep_write_bin
+-- always emits `02 ‖ x`. Counterexample (p = 11, y² = x³ + x, nb = 1): readBin [3, 0] = some (0, 0) and
+-- writeBin 2 (0, 0) pack = [2, 0] ≠ [3, 0] — see the `example`s after `readBin_twoTorsion_malleable`.
+-- Curves of odd order (all prime-order curves) have no such point, so there `hy0` is vacuous.
+theorem writeBin_readBin (x : Ctx) (hp : 1 < x.c.p) (hnb : x.c.p ≤ 256 ^ x.nb) (hs : SrtSound x) (hsep : SignSeparates x)
+    (bin : Bytes) (P : Point) (h : readBin x bin = some P)
+    (hy0 : bin.length = x.nb + 1 → ∀ px, P ≠ some (px, 0)) :
+    writeBin x bin.length P (bin.length = x.nb + 1) = some bin :=
+  writeBin_readBin_aux x hs hsep bin P h hy0
+
+/-- decoding a well-formed compressed string: whatever `upk` recovers for the tag's bit is returned -/
+theorem readBin_tag (x : Ctx) (hnb : x.c.p ≤ 256 ^ x.nb) (hnb0 : 0 < x.nb) (px py bit : Nat) (hbit : bit ≤ 1)
+    (hupk : upk x px bit = some py) (hon : onCurve x.c (some (px, py)) = true) :
+    readBin x (UInt8.ofNat (2 + bit) :: beBytes px x.nb) = some (some (px, py)) := by
+  obtain ⟨hpx, _, _⟩ := onCurve_some hon
+  have hf1 : fpRead x (beBytes px x.nb) = some px := by
+    have hvx : beVal (beBytes px x.nb) = px := beVal_beBytes _ _ (by omega)
+    have := fpRead_eq (x := x) (beBytes_length px x.nb) (by rw [hvx]; exact hpx)
+    rwa [hvx] at this
+  have ht : (UInt8.ofNat (2 + bit)).toNat = 2 + bit := by
+    rw [UInt8.toNat_ofNat']; omega
+  have hlen : (UInt8.ofNat (2 + bit) :: beBytes px x.nb).length = x.nb + 1 := by
+    simp [beBytes_length]
+  apply readBin_pack x _ px py (by omega) hlen
+  · simpa using hf1
+  · rw [List.headD_cons, ht]; omega
+  · rw [List.headD_cons, ht, Nat.add_sub_cancel_left]
+    exact hupk
+  · exact hon
+
+set_option linter.unusedVariables false in
+/-- R1: decode (encode P) = P for every point on the curve, compressed and uncompressed, at the advertised size
+    (`hp` is not needed) -/
+-- STATEMENT CHANGED: new hypothesis `hprime` (p is prime, divisor form; the project has no Mathlib `Nat.Prime`).
+-- The original statement never said that p is prime, and for composite p it is false because a square has
+-- more than two roots: p = 15, y² = x³ + 1, P = (0, 4): writeBin gives [2, 0], brute-force srt 1 = 1, and
+-- readBin [2, 0] = some (0, 1) ≠ P, although SrtSound, SrtComplete, SignSeparates all hold (see the
+-- `example` below). Not a defect of the C code (fp contexts are prime fields).
 theorem readBin_writeBin (x : Ctx) (hp : 1 < x.c.p) (hnb : x.c.p ≤ 256 ^ x.nb) (hnb0 : 0 < x.nb) (hs : SrtSound x)
     (hc : SrtComplete x) (hsep : SignSeparates x)
+    (hprime : ∀ d, d ∣ x.c.p → d = 1 ∨ d = x.c.p)
     (P : Point) (hP : onCurve x.c P = true) (pack : Bool) (b : Bytes)
     (h : writeBin x (sizeBin x P pack) P pack = some b) :
     readBin x b = some P := by
-  sorry
+  rcases P with _ | ⟨px, py⟩
+  · rw [show sizeBin x none pack = 1 from rfl, writeBin_none] at h
+    cases h
+    exact readBin_zero x
+  · obtain ⟨hpx, hpy, heq⟩ := onCurve_some hP
+    cases pack
+    · have hf1 : fpRead x (beBytes px x.nb) = some px := by
+        have hvx : beVal (beBytes px x.nb) = px := beVal_beBytes _ _ (by omega)
+        have := fpRead_eq (x := x) (beBytes_length px x.nb) (by rw [hvx]; exact hpx)
+        rwa [hvx] at this
+      have hf2 : fpRead x (beBytes py x.nb) = some py := by
+        have hvy : beVal (beBytes py x.nb) = py := beVal_beBytes _ _ (by omega)
+        have := fpRead_eq (x := x) (beBytes_length py x.nb) (by rw [hvy]; exact hpy)
+        rwa [hvy] at this
+      rw [show sizeBin x (some (px, py)) false = 2 * x.nb + 1 from rfl, writeBin_unpack] at h
+      cases h
+      have hlen : (4 :: (beBytes px x.nb ++ beBytes py x.nb)).length = 2 * x.nb + 1 := by
+        simp [beBytes_length]; omega
+      apply readBin_unpack x _ px py (by omega) (by omega) hlen rfl
+      · simpa [beBytes_length] using hf1
+      · rw [Nat.add_comm, List.drop_succ_cons]
+        simpa [beBytes_length] using hf2
+      · exact hP
+    · rw [show sizeBin x (some (px, py)) true = x.nb + 1 from rfl, writeBin_pack] at h
+      cases h
+      exact readBin_tag x hnb hnb0 px py _ (signBit_le_one x py) (upk_complete hprime hs hc hsep hP) hP
 
-/-- R2: the buffer check: an error exactly when the buffer is shorter than the advertised size -/
-theorem writeBin_error_iff (x : Ctx) (len : Nat) (P : Point) (pack : Bool) :
-    writeBin x len P pack = none ↔ len < sizeBin x P pack := by
-  sorry
+/-! ### consequences and the exceptional case -/
+
+/-- non-malleability in the form "two accepted strings of the same length for the same point are equal"
+    (compressed encodings of points with y = 0 excepted) -/
+theorem readBin_inj (x : Ctx) (hs : SrtSound x) (hsep : SignSeparates x) (b1 b2 : Bytes) (P : Point)
+    (h1 : readBin x b1 = some P) (h2 : readBin x b2 = some P) (hl : b1.length = b2.length)
+    (hy0 : b1.length = x.nb + 1 → ∀ px, P ≠ some (px, 0)) : b1 = b2 := by
+  have e1 := writeBin_readBin_aux x hs hsep b1 P h1 hy0
+  have e2 := writeBin_readBin_aux x hs hsep b2 P h2 (hl ▸ hy0)
+  rw [hl, e2] at e1
+  exact (Option.some.inj e1).symm
+
+theorem signBit_zero (x : Ctx) : signBit x 0 = 0 := by
+  simp [signBit]
+
+/-- for a point of order 2 `upk` ignores the requested bit: the negation of the root 0 is 0 -/
+theorem upk_twoTorsion {x : Ctx} (hprime : ∀ d, d ∣ x.c.p → d = 1 ∨ d = x.c.p) (hs : SrtSound x)
+    (hc : SrtComplete x) {px : Nat} (hon : onCurve x.c (some (px, 0)) = true) (bit : Nat) :
+    upk x px bit = some 0 := by
+  obtain ⟨hpx, hpy, heq⟩ := onCurve_some hon
+  unfold upk
+  dsimp only
+  have hsome := hc ((px * px % x.c.p * px + x.c.a * px + x.c.b) % x.c.p) 0 hpy (by rw [Nat.mod_mod]; exact heq)
+  split
+  · next hnone => rw [hnone] at hsome; cases hsome
+  · next r hr =>
+    obtain ⟨hrp, hrr⟩ := hs _ _ hr
+    rw [Nat.mod_mod, ← heq] at hrr
+    have hr0 : r = 0 := by
+      rcases sq_eq hprime hrp hpy hrr with h1 | h1 <;> omega
+    subst hr0
+    split <;> simp
+
+/-- FINDING (malleability of compressed points of order 2): for every curve point (px, 0) both `02 ‖ px`
+    and `03 ‖ px` are accepted by ep_read_bin and give the same point; ep_write_bin emits only `02 ‖ px`.
+    This is why `writeBin_readBin` needs `hy0`. -/
+theorem readBin_twoTorsion_malleable (x : Ctx) (hnb : x.c.p ≤ 256 ^ x.nb) (hnb0 : 0 < x.nb) (hs : SrtSound x)
+    (hc : SrtComplete x) (hprime : ∀ d, d ∣ x.c.p → d = 1 ∨ d = x.c.p) (px : Nat)
+    (hon : onCurve x.c (some (px, 0)) = true) :
+    readBin x (2 :: beBytes px x.nb) = some (some (px, 0)) ∧
+    readBin x (3 :: beBytes px x.nb) = some (some (px, 0)) ∧
+    writeBin x (x.nb + 1) (some (px, 0)) true = some (2 :: beBytes px x.nb) := by
+  refine ⟨?_, ?_, ?_⟩
+  · exact readBin_tag x hnb hnb0 px 0 0 (by omega) (upk_twoTorsion hprime hs hc hon 0) hon
+  · exact readBin_tag x hnb hnb0 px 0 1 (by omega) (upk_twoTorsion hprime hs hc hon 1) hon
+  · rw [writeBin_pack, signBit_zero]; rfl
+
+/-! ### concrete counterexamples to the original statements -/
+
+section Counterexamples
+
+/-- brute-force square root modulo p (sound and complete) -/
+private def bfSrt (p : Nat) : Nat → Option Nat := fun a => (List.range p).find? fun r => r * r % p = a % p
+
+/-- y² = x³ + x over F₁₁ with the point (0, 0) of order 2; 1-byte field elements, plain parity -/
+private def cex1 : Ctx := { c := { p := 11, a := 1, b := 0 }, nb := 1, pairf := false, R := 1, srt := bfSrt 11 }
+
+private theorem bfSrt_sound (x : Ctx) (h : x.srt = bfSrt x.c.p) : SrtSound x := by
+  intro a r hr
+  rw [h] at hr
+  have h1 := List.find?_some hr
+  have h2 := List.mem_of_find?_eq_some hr
+  exact ⟨List.mem_range.mp h2, by simpa using h1⟩
+
+private theorem bfSrt_complete (x : Ctx) (h : x.srt = bfSrt x.c.p) : SrtComplete x := by
+  intro a y hy hyy
+  rw [h, bfSrt, List.find?_isSome]
+  exact ⟨y, List.mem_range.mpr hy, by simpa using hyy⟩
+
+/-- the counterexample context satisfies every hypothesis of the original statement (and p = 11 is prime) -/
+example : 1 < cex1.c.p ∧ cex1.c.p ≤ 256 ^ cex1.nb ∧ 0 < cex1.nb ∧ SrtSound cex1 ∧ SrtComplete cex1 ∧
+    SignSeparates cex1 ∧ ∀ d, d ∣ cex1.c.p → d = 1 ∨ d = cex1.c.p := by
+  refine ⟨by decide, by decide, by decide, bfSrt_sound _ rfl, bfSrt_complete _ rfl, ?_, ?_⟩
+  · intro y h0 hy
+    have hy' : y < 11 := hy
+    show (y * 1 % 11) % 2 ≠ ((11 - y) * 1 % 11) % 2
+    omega
+  · intro d hd
+    have hle : d ≤ 11 := Nat.le_of_dvd (by decide) hd
+    have : ∀ d, d ≤ 11 → d ∣ 11 → d = 1 ∨ d = 11 := by decide
+    exact this d hle hd
+
+/-- original `writeBin_readBin` fails: `03 00` is accepted but re-encodes as `02 00` (both conventions) -/
+example : readBin cex1 [3, 0] = some (some (0, 0)) ∧ readBin cex1 [2, 0] = some (some (0, 0)) ∧
+    writeBin cex1 [3, 0].length (some (0, 0)) ([3, 0].length = cex1.nb + 1) = some [2, 0] := by decide
+example : readBin { cex1 with pairf := true } [3, 0] = some (some (0, 0)) ∧
+    writeBin { cex1 with pairf := true } 2 (some (0, 0)) true = some [2, 0] := by decide
+
+/-- y² = x³ + 1 over Z/15 (composite): 1 has the square roots 1, 4, 11, 14 -/
+private def cex2 : Ctx := { c := { p := 15, a := 0, b := 1 }, nb := 1, pairf := true, R := 1, srt := bfSrt 15 }
+
+/-- … and satisfies every hypothesis of the original `readBin_writeBin` -/
+example : 1 < cex2.c.p ∧ cex2.c.p ≤ 256 ^ cex2.nb ∧ 0 < cex2.nb ∧ SrtSound cex2 ∧ SrtComplete cex2 ∧
+    SignSeparates cex2 :=
+  ⟨by decide, by decide, by decide, bfSrt_sound _ rfl, bfSrt_complete _ rfl, signSeparates_pairf _ rfl rfl⟩
+
+/-- original `readBin_writeBin` (no primality hypothesis) fails: (0, 4) encodes to `02 00`, which decodes to (0, 1) -/
+example : onCurve cex2.c (some (0, 4)) = true ∧
+    writeBin cex2 (sizeBin cex2 (some (0, 4)) true) (some (0, 4)) true = some [2, 0] ∧
+    readBin cex2 [2, 0] = some (some (0, 1)) := by decide
+
+end Counterexamples
 
 end Relic.Model.EpConv
